@@ -12,7 +12,16 @@ package tcp
 // a crypto/tls server whose GetConfigForClient records ClientHelloInfo.ServerName. Faulted clients
 // are raw: a genuine hello captured from crypto/tls, then truncated at a PRNG offset, with 1-3 bytes
 // flipped, with an inflated record or handshake length, or followed by more bytes in the same flight
-// (what a client with early data emits). The driver chooses every segmentation.
+// (what a client with early data emits). A third population are raw clients with a STRUCTURALLY
+// BUILT hello (c10Craft): the fields of a ClientHello - legacy versions, session id 0..32, 1..300 cipher
+// suites, 1..3 compression methods, with / without / with an empty extension block, up to ~40 extensions
+// of known and unknown types (empty bodies, padding), server_name at any position, server name lists
+// with several entries and name types != 0 before / after the host_name entry - are chosen by the PRNG,
+// starting from scratch or from a genuine hello taken apart, and serialised with CONSISTENT length
+// fields; and the family of minimal messages: such a hello cut to a handshake message of 4..64 bytes
+// (or at any offset) and re-framed so that record and handshake header announce exactly what is sent.
+// These are legal or length-consistent inputs a Go client never emits. The driver chooses every
+// segmentation.
 //
 // Oracle, per client connection (the reference is crypto/tls itself: the bytes the client really sent
 // are fed to a crypto/tls server offline, which either reports a name or rejects them):
@@ -103,13 +112,15 @@ func c10UpKey(i int) string { return fmt.Sprintf("tlsup%d.sim:443", i) }
 // ---------------------------------------------------------------- scenario
 
 type c10Mutation struct {
-	Kind  string `json:"kind"` // truncate | flip | inflate-record | inflate-both | tail | field
+	Kind  string `json:"kind"` // truncate | flip | inflate-record | inflate-both | tail | field | craft | craft-min
 	At    []int  `json:"at,omitempty"`
 	Xor   []int  `json:"xor,omitempty"`
 	How   []int  `json:"how,omitempty"` // field: 0 set to 0, 1 set to 1, 2 minus one, 3 plus one, 4 set to 255, 5 xor
 	Delta int    `json:"delta,omitempty"`
 	Tail  int    `json:"tail_bytes,omitempty"`
 	Then  string `json:"then"` // close | wait
+	// craft, craft-min: the hello is not a damaged genuine one but built field by field
+	Craft *c10Craft `json:"craft,omitempty"`
 }
 
 type c10Client struct {
@@ -201,15 +212,18 @@ func c10Gen(g *simcore.Tape, thorough bool) *c10Scenario {
 		c.Curves = simcore.Pick(g, []string{"default", "x25519", "mlkem-x25519", "p256-p384-p521", "mlkem-p256"})
 		c.Ciphers = simcore.Pick(g, []string{"default", "cbc-sha", "gcm-chacha", "everything"})
 		switch {
-		case g.Chance(45):
-			kinds := []string{"truncate", "flip", "inflate-record", "inflate-both", "tail", "field"}
+		case g.Chance(55):
+			// half of the raw clients damage a genuine hello, the other half build one structurally
+			kinds := []string{"truncate", "flip", "inflate-record", "inflate-both", "tail", "field", "craft", "craft", "craft", "craft", "craft-min", "craft-min"}
 			if sc.Tasks {
 				// flip and field can make fabio's parser walk over the random parts of the hello (key
 				// shares, session id) as if they were framing: how many statements it executes then
 				// depends on crypto/rand, which must not reach the schedule. With statement-level tasks
 				// only damage that leaves the framing of the hello intact is used; the parse of one
 				// damaged hello is sequential code and is explored in the other runs.
-				kinds = []string{"truncate", "inflate-record", "inflate-both", "tail"}
+				// Built hellos have consistent framing and, in these runs, no crypto/rand content at all
+				// (always from scratch).
+				kinds = []string{"truncate", "inflate-record", "inflate-both", "tail", "craft", "craft", "craft-min"}
 			}
 			m := &c10Mutation{Kind: simcore.Pick(g, kinds)}
 			switch m.Kind {
@@ -233,6 +247,11 @@ func c10Gen(g *simcore.Tape, thorough bool) *c10Scenario {
 				m.Delta = g.Range(1, 2000)
 			case "tail":
 				m.Tail = g.Range(1, 6000)
+			case "craft", "craft-min":
+				m.Craft = c10GenCraft(g, k, m.Kind == "craft-min", sc.Tasks)
+				if g.Chance(25) {
+					m.Tail = g.Range(1, 6000) // more bytes behind the built record, in the same flight
+				}
 			}
 			m.Then = simcore.Pick(g, []string{"wait", "close"})
 			c.Mut = m
@@ -624,11 +643,16 @@ func (e *c10Env) tlsClient(cc *c10Conn, raw net.Conn, cfg *tls.Config) {
 func (e *c10Env) rawClient(cc *c10Conn, raw net.Conn, cfg *tls.Config) {
 	defer raw.Close()
 	m := cc.client.Mut
-	hello := h3ClientHello(cfg)
-	if hello == nil {
-		return // this configuration cannot even produce a hello (no usable cipher suite for its versions)
+	var b []byte
+	if m.Craft != nil {
+		b = c10BuildCraft(cc.client, cfg)
+	} else {
+		hello := h3ClientHello(cfg)
+		if hello == nil {
+			return // this configuration cannot even produce a hello (no usable cipher suite for its versions)
+		}
+		b = append([]byte(nil), hello...)
 	}
-	b := append([]byte(nil), hello...)
 	switch m.Kind {
 	case "truncate":
 		b = b[:m.At[0]%len(b)]
@@ -669,7 +693,7 @@ func (e *c10Env) rawClient(cc *c10Conn, raw net.Conn, cfg *tls.Config) {
 			hl += nl - rl
 			b[6], b[7], b[8] = byte(hl>>16), byte(hl>>8), byte(hl)
 		}
-	case "tail":
+	case "tail", "craft", "craft-min":
 		tail := make([]byte, m.Tail)
 		for i := range tail {
 			tail[i] = byte(0x17 + i%7) // fixed filler: an application_data-looking second record start, not random
@@ -711,6 +735,485 @@ func (e *c10Env) rawClient(cc *c10Conn, raw net.Conn, cfg *tls.Config) {
 	}
 }
 
+// ---------------------------------------------------------------- structural ClientHello builder
+//
+// Written from RFC 5246 7.4.1.2 / RFC 8446 4.1.2 / RFC 6066 3 (the wire format), not from fabio's parser:
+//
+//	record:    type(1)=22 version(2) length(2)
+//	handshake: type(1)=1 length(3)
+//	body:      legacy_version(2) random(32) session_id<0..32> cipher_suites<2..2^16-2>
+//	           compression_methods<1..2^8-1> [ extensions<0..2^16-1> ]
+//	extension: type(2) data<0..2^16-1>;  server_name data: ServerName list<1..2^16-1> of name_type(1) name<1..2^16-1>
+//
+// Every length field is computed from what is really serialised, so the framing is always consistent;
+// what varies is the structure. Values the specification forbids (session id above 32 bytes, empty
+// cipher suite list) are not produced: the property speaks about well-formed hellos, and for anything
+// else the reference decides whether a demand exists at all.
+
+type c10NameEntry struct {
+	Type int    `json:"type"` // 0 = host_name
+	Name string `json:"name"`
+}
+
+type c10Extra struct {
+	Type  int  `json:"type"`
+	Len   int  `json:"len"`
+	At    int  `json:"at"`              // position in the extension list (modulo its length + 1)
+	Decoy bool `json:"decoy,omitempty"` // the body is a complete server_name extension naming another routed host
+}
+
+type c10Craft struct {
+	Base    string     `json:"base"` // scratch | genuine (a crypto/tls hello taken apart and rebuilt)
+	RecVers int        `json:"record_version"`
+	Vers    int        `json:"legacy_version"` // 0: keep the genuine one
+	SID     int        `json:"session_id_len"` // -1: keep the genuine one
+	Suites  int        `json:"cipher_suites"`  // 0: keep the genuine list
+	Comp    int        `json:"compression_methods"`
+	NoExt   bool       `json:"no_extension_block,omitempty"`
+	Known   int        `json:"known_extensions_mask,omitempty"` // scratch: which of c10KnownExts, in menu order rotated by Rot
+	Rot     int        `json:"known_rotation,omitempty"`
+	Extra   []c10Extra `json:"extra_extensions,omitempty"`
+	// server_name: "" no such extension | list | empty-body (the ServerHello form) | empty-list
+	SNI   string         `json:"server_name_form,omitempty"`
+	Names []c10NameEntry `json:"server_name_list,omitempty"`
+	SNIAt int            `json:"server_name_at,omitempty"`
+	// Shadow > 0: the cipher suite list (its code points are the client's to choose) carries, from
+	// entry Shadow on, bytes that read as "compression methods + extension block with a server_name
+	// of another routed host" and are consistent up to the end of the message: a parser that resumes
+	// anywhere but at the true end of the list finds a well-formed hello tail there.
+	Shadow int `json:"shadow_tail_at_suite,omitempty"`
+	// MsgLen > 0 (craft-min): the handshake message is cut to MsgLen bytes (header included) and the
+	// handshake and record headers announce exactly that
+	MsgLen int `json:"cut_to_message_len,omitempty"`
+	// Slack: bytes of a further handshake message inside the same record, behind the hello
+	Slack int `json:"record_slack,omitempty"`
+	Fill  int `json:"fill_seed"`
+}
+
+var c10KnownExts = []string{"supported_versions", "supported_groups", "signature_algorithms", "key_share", "ec_point_formats", "alpn",
+	"status_request", "sct", "extended_master_secret", "session_ticket", "psk_key_exchange_modes", "renegotiation_info",
+	"cookie", "early_data", "session_ticket_filled", "signature_algorithms_cert"}
+
+// types crypto/tls does not interpret (padding, GREASE, compress_certificate, record_size_limit,
+// encrypt_then_mac, heartbeat, post_handshake_auth, ALPS, private use)
+var c10UnknownTypes = []int{21, 0x0a0a, 27, 28, 22, 15, 49, 17513, 0xfa01, 0xffff, 0xbaba, 0x00ff}
+
+func c10DecoyOf(k int) string {
+	// another routed name than the client's own
+	for i := 1; i <= len(c10Names); i++ {
+		if n := c10Names[(k+i)%len(c10Names)]; n.Route != "" && len(n.Route) < 100 {
+			return n.Route
+		}
+	}
+	return ""
+}
+
+func c10GenCraft(g *simcore.Tape, nameIdx int, minimal, tasks bool) *c10Craft {
+	k := &c10Craft{Base: "scratch", SID: 0, Comp: 1}
+	if !tasks && g.Chance(35) {
+		k.Base = "genuine"
+	}
+	genuine := k.Base == "genuine"
+	k.RecVers = simcore.Pick(g, []int{0x0301, 0x0303, 0x0302, 0x0300, 0x0304})
+	k.Vers = simcore.Pick(g, []int{0x0303, 0x0301, 0x0302, 0x0300, 0x0304})
+	if genuine && g.Bool() {
+		k.Vers = 0
+	}
+	switch g.Intn(4) {
+	case 1:
+		k.SID = 32
+	case 2:
+		k.SID = g.Range(1, 31)
+	case 3:
+		if genuine {
+			k.SID = -1
+		}
+	}
+	switch g.Intn(5) {
+	case 0:
+		k.Suites = g.Range(1, 20)
+	case 1:
+		k.Suites = simcore.Pick(g, []int{127, 128, 129, 255, 256, 300})
+	case 2:
+		k.Suites = g.Range(21, 300)
+	case 3:
+		k.Suites = 1
+	case 4:
+		k.Suites = g.Range(1, 20)
+		if genuine {
+			k.Suites = 0
+		}
+	}
+	k.Comp = g.Range(1, 3)
+	k.NoExt = g.Chance(12)
+	if !genuine {
+		k.Known = g.Intn(1 << len(c10KnownExts))
+		k.Rot = g.Intn(len(c10KnownExts))
+	}
+	nx := 0
+	switch g.Intn(4) {
+	case 1:
+		nx = g.Range(1, 3)
+	case 2:
+		nx = g.Range(4, 12)
+	case 3:
+		nx = g.Range(13, 40)
+	}
+	used := map[int]bool{}
+	for i := 0; i < nx; i++ {
+		x := c10Extra{Type: simcore.Pick(g, c10UnknownTypes), At: g.Intn(64)}
+		if used[x.Type] && !g.Chance(4) { // a repeated type is rare: crypto/tls rejects such a hello
+			x.Type = 0xfb00 + i
+		}
+		used[x.Type] = true
+		switch g.Intn(5) {
+		case 1:
+			x.Len = g.Range(1, 8)
+		case 2:
+			x.Len = g.Range(9, 300)
+		case 3:
+			x.Len = g.Range(301, 3000)
+		case 4:
+			x.Decoy = true
+		}
+		k.Extra = append(k.Extra, x)
+	}
+	// the server name list
+	host := c10Names[nameIdx].SNI
+	decoy := c10DecoyOf(nameIdx)
+	other := func() c10NameEntry {
+		e := c10NameEntry{Type: simcore.Pick(g, []int{1, 2, 255, 128}), Name: decoy}
+		if g.Bool() {
+			e.Name = "x" + strings.Repeat("y", g.Intn(20))
+		}
+		return e
+	}
+	form := g.Intn(12) // 0 and 9..11: the plain list with one host_name
+	if host == "" && (form == 5 || form == 8) {
+		form = 4
+	}
+	k.SNI = "list"
+	if host != "" {
+		k.Names = []c10NameEntry{{0, host}}
+	}
+	switch form {
+	case 1, 2, 3:
+		var before, after []c10NameEntry
+		if form != 2 {
+			for i, n := 0, g.Range(1, 3); i < n; i++ {
+				before = append(before, other())
+			}
+		}
+		if form != 1 {
+			for i, n := 0, g.Range(1, 3); i < n; i++ {
+				after = append(after, other())
+			}
+		}
+		k.Names = append(append(before, k.Names...), after...)
+	case 4: // entries of other types only: no host_name
+		k.Names = []c10NameEntry{other()}
+	case 5: // two host_name entries (prohibited: the reference decides)
+		k.Names = append(k.Names, c10NameEntry{0, decoy})
+	case 6:
+		k.SNI, k.Names = "empty-body", nil
+	case 7:
+		k.SNI, k.Names = "empty-list", nil
+	case 8: // a host_name entry of length 0 in front
+		k.Names = append([]c10NameEntry{{0, ""}}, k.Names...)
+	}
+	if k.SNI == "list" && len(k.Names) == 0 {
+		k.SNI = "" // a client without name sends no server_name extension
+	}
+	k.SNIAt = g.Intn(64)
+	if k.Suites >= 24 && g.Chance(20) {
+		k.Shadow = g.Range(1, k.Suites-1)
+	}
+	if minimal {
+		k.MsgLen = g.Range(4, 64)
+		if g.Chance(30) {
+			k.MsgLen = 4 + g.Intn(1<<14) // reduced modulo the length of the message
+		}
+	} else if g.Chance(8) {
+		k.Slack = g.Range(1, 40)
+	}
+	k.Fill = g.Intn(1 << 20)
+	return k
+}
+
+type c10Ext struct {
+	typ  int
+	body []byte
+}
+
+type c10Hello struct {
+	vers   int
+	random []byte
+	sid    []byte
+	suites []int
+	comp   []byte
+	exts   []c10Ext
+	noExt  bool
+}
+
+func c10U16(v int) []byte { return []byte{byte(v >> 8), byte(v)} }
+
+func c10Vec8(b []byte) []byte  { return append([]byte{byte(len(b))}, b...) }
+func c10Vec16(b []byte) []byte { return append(c10U16(len(b)), b...) }
+
+func c10ExtBytes(x c10Ext) []byte { return append(c10U16(x.typ), c10Vec16(x.body)...) }
+
+// message serialises the handshake message (4 byte header included).
+func (h *c10Hello) message() (msg []byte, suitesAt int) {
+	body := append(c10U16(h.vers), h.random...)
+	body = append(body, c10Vec8(h.sid)...)
+	var cs []byte
+	for _, s := range h.suites {
+		cs = append(cs, c10U16(s)...)
+	}
+	suitesAt = 4 + len(body) + 2
+	body = append(body, c10Vec16(cs)...)
+	body = append(body, c10Vec8(h.comp)...)
+	if !h.noExt {
+		var xs []byte
+		for _, x := range h.exts {
+			xs = append(xs, c10ExtBytes(x)...)
+		}
+		body = append(body, c10Vec16(xs)...)
+	}
+	return append([]byte{1, byte(len(body) >> 16), byte(len(body) >> 8), byte(len(body))}, body...), suitesAt
+}
+
+// c10ParseHello takes a genuine (crypto/tls emitted, so well-formed) hello record apart.
+func c10ParseHello(rec []byte) *c10Hello {
+	defer func() { recover() }() // not well-formed after all: the caller builds from scratch
+	h := &c10Hello{}
+	b := rec[9:]
+	h.vers = int(b[0])<<8 | int(b[1])
+	h.random = b[2:34]
+	b = b[34:]
+	h.sid = b[1 : 1+int(b[0])]
+	b = b[1+len(h.sid):]
+	n := int(b[0])<<8 | int(b[1])
+	for i := 0; i < n; i += 2 {
+		h.suites = append(h.suites, int(b[2+i])<<8|int(b[3+i]))
+	}
+	b = b[2+n:]
+	h.comp = b[1 : 1+int(b[0])]
+	b = b[1+len(h.comp):]
+	if len(b) == 0 {
+		h.noExt = true
+		return h
+	}
+	b = b[2:]
+	for len(b) > 0 {
+		l := int(b[2])<<8 | int(b[3])
+		h.exts = append(h.exts, c10Ext{int(b[0])<<8 | int(b[1]), b[4 : 4+l]})
+		b = b[4+l:]
+	}
+	return h
+}
+
+func c10SNIBody(names []c10NameEntry) []byte {
+	var list []byte
+	for _, n := range names {
+		list = append(list, byte(n.Type))
+		list = append(list, c10Vec16([]byte(n.Name))...)
+	}
+	return c10Vec16(list)
+}
+
+func c10KnownExt(name string, fill func(int) []byte) c10Ext {
+	switch name {
+	case "supported_versions":
+		return c10Ext{43, c10Vec8([]byte{3, 4, 3, 3, 3, 2, 3, 1})}
+	case "supported_groups":
+		return c10Ext{10, c10Vec16([]byte{0x11, 0xec, 0, 29, 0, 23, 0, 24, 0, 25})}
+	case "signature_algorithms":
+		return c10Ext{13, c10Vec16([]byte{8, 4, 4, 3, 8, 7, 8, 5, 8, 6, 4, 1, 5, 1, 6, 1, 5, 3, 6, 3, 2, 1, 2, 3})}
+	case "signature_algorithms_cert":
+		return c10Ext{50, c10Vec16([]byte{8, 4, 4, 3, 4, 1})}
+	case "key_share":
+		ks := append([]byte{0, 29}, c10Vec16(fill(32))...)
+		ks = append(ks, append([]byte{0, 23}, c10Vec16(append([]byte{4}, fill(64)...))...)...)
+		return c10Ext{51, c10Vec16(ks)}
+	case "ec_point_formats":
+		return c10Ext{11, c10Vec8([]byte{0})}
+	case "alpn":
+		return c10Ext{16, c10Vec16(append(c10Vec8([]byte("h2")), c10Vec8([]byte("http/1.1"))...))}
+	case "status_request":
+		return c10Ext{5, []byte{1, 0, 0, 0, 0}}
+	case "sct":
+		return c10Ext{18, nil}
+	case "extended_master_secret":
+		return c10Ext{23, nil}
+	case "session_ticket":
+		return c10Ext{35, nil}
+	case "session_ticket_filled":
+		return c10Ext{35, fill(180)}
+	case "psk_key_exchange_modes":
+		return c10Ext{45, c10Vec8([]byte{1})}
+	case "renegotiation_info":
+		return c10Ext{0xff01, c10Vec8(nil)}
+	case "cookie":
+		return c10Ext{44, c10Vec16(fill(24))}
+	case "early_data":
+		return c10Ext{42, nil}
+	}
+	return c10Ext{0xfc00, nil}
+}
+
+// c10Filler: opaque content (random, session id, key shares, unknown extension bodies) derived from the
+// scenario tape, never from crypto/rand.
+func c10Filler(seed int) func(int) []byte {
+	x := uint32(seed)*2654435761 + 12345
+	return func(n int) []byte {
+		b := make([]byte, n)
+		for i := range b {
+			x = x*1664525 + 1013904223
+			b[i] = byte(x >> 24)
+		}
+		return b
+	}
+}
+
+// c10BuildCraft returns the record (plus nothing else) a client with this scenario sends.
+func c10BuildCraft(c *c10Client, cfg *tls.Config) []byte {
+	k := c.Mut.Craft
+	fill := c10Filler(k.Fill)
+	var h *c10Hello
+	if k.Base == "genuine" {
+		if g := h3ClientHello(cfg); g != nil {
+			h = c10ParseHello(g)
+		}
+	}
+	genuine := h != nil
+	if !genuine {
+		h = &c10Hello{vers: 0x0303, random: fill(32), suites: []int{0x1301, 0x1302, 0x1303, 0xc02b, 0xc02f, 0xc02c, 0xc030, 0xcca9, 0xcca8, 0xc013, 0xc014, 0x009c, 0x009d, 0x002f, 0x0035}}
+		for i := range c10KnownExts {
+			j := (i + k.Rot) % len(c10KnownExts)
+			if k.Known&(1<<j) != 0 {
+				x := c10KnownExt(c10KnownExts[j], fill)
+				if x.typ == 35 && len(h.exts) > 0 && func() bool {
+					for _, y := range h.exts {
+						if y.typ == 35 {
+							return true
+						}
+					}
+					return false
+				}() {
+					continue // session_ticket once
+				}
+				h.exts = append(h.exts, x)
+			}
+		}
+	} else {
+		// the genuine server_name goes; the scenario's own is placed below
+		var xs []c10Ext
+		for _, x := range h.exts {
+			if x.typ != 0 {
+				xs = append(xs, x)
+			}
+		}
+		h.exts = xs
+	}
+	if k.Vers != 0 {
+		h.vers = k.Vers
+	}
+	if k.SID >= 0 {
+		h.sid = fill(k.SID)
+	}
+	if k.Suites > 0 {
+		// the first entries stay real suites, the list is then cut or filled up with GREASE and
+		// private-use / unassigned code points
+		for i := len(h.suites); i < k.Suites; i++ {
+			switch i % 3 {
+			case 0:
+				h.suites = append(h.suites, 0x0a0a+0x1010*(i/3%16))
+			case 1:
+				h.suites = append(h.suites, 0xff00+i%256)
+			default:
+				f := fill(2)
+				h.suites = append(h.suites, int(f[0])<<8|int(f[1]))
+			}
+		}
+		h.suites = h.suites[:k.Suites]
+	}
+	h.comp = make([]byte, k.Comp)
+	for i := range h.comp { // the null method somewhere in the list
+		if i != k.Fill%k.Comp {
+			h.comp[i] = byte(1 + i*63)
+		}
+	}
+	h.noExt = k.NoExt
+	insert := func(at int, x c10Ext) {
+		at %= len(h.exts) + 1
+		h.exts = append(h.exts, c10Ext{})
+		copy(h.exts[at+1:], h.exts[at:])
+		h.exts[at] = x
+	}
+	decoy := ""
+	for i, n := range c10Names {
+		if n.Label == c.name.Label {
+			decoy = c10DecoyOf(i)
+		}
+	}
+	for _, x := range k.Extra {
+		body := fill(x.Len)
+		if x.Type == 21 {
+			body = make([]byte, x.Len) // padding is zeros
+		}
+		if x.Decoy {
+			body = c10ExtBytes(c10Ext{0, c10SNIBody([]c10NameEntry{{0, decoy}})})
+		}
+		insert(x.At, c10Ext{x.Type, body})
+	}
+	switch k.SNI {
+	case "list":
+		insert(k.SNIAt, c10Ext{0, c10SNIBody(k.Names)})
+	case "empty-body":
+		insert(k.SNIAt, c10Ext{0, nil})
+	case "empty-list":
+		insert(k.SNIAt, c10Ext{0, c10Vec16(nil)})
+	}
+	msg, suitesAt := h.message()
+	if k.Shadow > 0 && k.Shadow < len(h.suites) {
+		// compression(01 00) + extensions length + server_name(decoy) + one unknown extension that swallows
+		// everything up to the end of the message; written over cipher suite code points, so no length of
+		// the real structure changes
+		p := suitesAt + 2*k.Shadow
+		sni := c10ExtBytes(c10Ext{0, c10SNIBody([]c10NameEntry{{0, decoy}})})
+		need := 2 + 2 + len(sni) + 4
+		if p+need <= suitesAt+2*len(h.suites) {
+			sh := []byte{1, 0}
+			sh = append(sh, c10U16(len(msg)-(p+4))...)
+			sh = append(sh, sni...)
+			sh = append(sh, 0xfa, 0xfa)
+			sh = append(sh, c10U16(len(msg)-(p+need))...)
+			copy(msg[p:], sh)
+		}
+	}
+	if k.MsgLen > 0 {
+		n := k.MsgLen
+		if n > 64 {
+			n = 4 + (n-4)%(len(msg)-3)
+		}
+		if n < len(msg) {
+			msg = msg[:n]
+		}
+		bl := len(msg) - 4
+		msg[1], msg[2], msg[3] = byte(bl>>16), byte(bl>>8), byte(bl)
+	}
+	if k.Slack > 0 {
+		// the start of a second handshake message in the same record
+		msg = append(msg, fill(k.Slack)...)
+	}
+	if len(msg) > 16384 {
+		msg = msg[:16384] // cannot happen with the sizes above
+	}
+	rec := append([]byte{22}, c10U16(k.RecVers)...)
+	return append(rec, c10Vec16(msg)...)
+}
+
 // c10FieldOffsets lists the offsets of the bytes of a genuine ClientHello record (as emitted by
 // crypto/tls, so well-formed) that carry lengths or types: the targets of the "field" damage.
 func c10FieldOffsets(b []byte) []int {
@@ -749,6 +1252,13 @@ func c10FieldOffsets(b []byte) []int {
 		p += 4 + l
 	}
 	return offs
+}
+
+func craftOf(c *c10Client) *c10Craft {
+	if c.Mut == nil {
+		return nil
+	}
+	return c.Mut.Craft
 }
 
 func c10Check(r *simcore.Run, sc *c10Scenario, e *c10Env) {
@@ -818,6 +1328,32 @@ func c10Check(r *simcore.Run, sc *c10Scenario, e *c10Env) {
 		}
 		if !parsed && complete {
 			r.Probe("reference_rejects_" + sig)
+		}
+		if k := craftOf(c); k != nil && complete {
+			if parsed {
+				r.Probe("reference_accepts_" + sig + "_" + k.Base)
+				if k.Suites >= 128 {
+					r.Probe("reference_accepts_craft_suite_list_of_256_bytes_or_more")
+				}
+				if len(k.Names) > 1 {
+					r.Probe("reference_accepts_craft_several_server_names")
+				}
+				if len(k.Extra) > 12 {
+					r.Probe("reference_accepts_craft_more_than_12_extra_extensions")
+				}
+			}
+			if k.MsgLen > 0 {
+				switch n := len(rec) - 5; {
+				case n < 38:
+					r.Probe("craft_min_message_4_37")
+				case n < 46:
+					r.Probe("craft_min_message_38_45")
+				case n <= 64:
+					r.Probe("craft_min_message_46_64")
+				default:
+					r.Probe("craft_min_message_above_64")
+				}
+			}
 		}
 		// an unfaulted client whose name has a route completes a TLS session through the tunnel
 		if cc.kind == "tls" && want != "" {
